@@ -22,11 +22,12 @@ func newStreamLogger(conn io.ReadWriter, logFile io.Writer) io.ReadWriter {
 func (sl *streamLogger) Read(p []byte) (n int, err error) {
 	n, err = sl.socket.Read(p)
 	if n > 0 {
+		// What was read from the connection is returned whatever becomes of the log: a log that cannot be written
+		// (disk full, file gone) must not discard data received on a healthy connection, nor report it as lost.
 		sl.logFile.Write([]byte("RECV:\n")) // Prefix
-		if n, err := sl.logFile.Write(p[:n]); err != nil {
-			return n, err
+		if _, lerr := sl.logFile.Write(p[:n]); lerr == nil {
+			sl.logFile.Write([]byte("\n\n")) // Separator
 		}
-		sl.logFile.Write([]byte("\n\n")) // Separator
 	}
 	return
 }
